@@ -201,17 +201,21 @@ void bn_rand(bn_t a, int sign, size_t bits) {
 	RLC_RIP(bits, digits, bits);
 	digits += (bits > 0 ? 1 : 0);
 
-	bn_grow(a, digits);
+	RLC_TRY {
+		bn_grow(a, digits);
 
-	rand_bytes((uint8_t *)a->dp, digits * sizeof(dig_t));
+		rand_bytes((uint8_t *)a->dp, digits * sizeof(dig_t));
 
-	a->used = digits;
-	a->sign = sign;
-	if (bits > 0) {
-		dig_t mask = ((dig_t)1 << (dig_t)bits) - 1;
-		a->dp[a->used - 1] &= mask;
+		a->used = digits;
+		a->sign = sign;
+		if (bits > 0) {
+			dig_t mask = ((dig_t)1 << (dig_t)bits) - 1;
+			a->dp[a->used - 1] &= mask;
+		}
+		bn_trim(a);
+	} RLC_CATCH_ANY {
+		RLC_THROW(ERR_CAUGHT);
 	}
-	bn_trim(a);
 }
 
 void bn_rand_mod(bn_t a, const bn_t b) {
